@@ -22,7 +22,7 @@ func TestC03Delivery(t *testing.T) {
 		s.CloseAfter = -1
 		var out *downlib.Outcome
 		var why string
-		ok, dump := vrun.Watchdog(180*time.Second, func() { out, why = downlib.Run(s) })
+		ok, dump := vrun.Watchdog(60*time.Second, func() { out, why = downlib.Run(s) })
 		if !ok {
 			r := vrun.WatchdogVerdict("ReadDataPoints never returned")
 			r.Desc = s
